@@ -11,7 +11,7 @@ namespace Shk.Script
 inductive Line where
   | shebang (shell : String)            -- `#!<shell>`
   | setOpts                             -- `set -euao pipefail`
-  | cd (workDir : String)               -- `cd '<workDir>'`
+  | cd (workDir : String)               -- `cd '<workDir>'` (quoted by `shQuote`)
   | tmpHome                             -- `TMPDIR=$PWD HOME=$PWD/..`
   | stamp (act : String)                -- `TZ=UTC date +… >><act>.log`
   | announce (workDir act : String)     -- `echo output redirected to <workDir>/<act>.log`
@@ -22,14 +22,17 @@ inductive Line where
   | other (text : String)               -- never generated; used when a real script is classified
 deriving DecidableEq, Repr
 
+/-- `shQuote`: a string between single quotes for the shell, a quote inside written `'\''` -/
+def shQuote (s : String) : String := "'" ++ s.replace "'" "'\\''" ++ "'"
+
 def Line.render : Line → String
   | .shebang sh => "#!" ++ sh
   | .setOpts => "set -euao pipefail"
-  | .cd wd => "cd '" ++ wd ++ "'"
+  | .cd wd => "cd " ++ shQuote wd
   | .tmpHome => "TMPDIR=$PWD HOME=$PWD/.."
-  | .stamp act => "TZ=UTC date +%Y-%m-%dT%H:%M:%SZ >>" ++ act ++ ".log"
-  | .announce wd act => "echo output redirected to " ++ wd ++ "/" ++ act ++ ".log"
-  | .redirect act => "exec >>" ++ act ++ ".log 2>&1"
+  | .stamp act => "TZ=UTC date +%Y-%m-%dT%H:%M:%SZ >>" ++ shQuote (act ++ ".log")
+  | .announce wd act => "echo output redirected to " ++ shQuote (wd ++ "/" ++ act ++ ".log")
+  | .redirect act => "exec >>" ++ shQuote (act ++ ".log") ++ " 2>&1"
   | .trace => "set -x"
   | .env t => t
   | .command t => t
